@@ -575,3 +575,5 @@ for _f in _package_files():
     for _p in CORPUS:
         CORPUS[_p].append(E(f"sweep: locals of every function in {_f} renamed", (_f, "@rename_all", "")))
         CORPUS[_p].append(E(f"sweep: products of every function in {_f} commuted", (_f, "@commute_all", "")))
+        CORPUS[_p].append(E(f"sweep: comparisons of every function in {_f} mirrored (a < b -> b > a)", (_f, "@swapcmp_all", "")))
+        CORPUS[_p].append(E(f"sweep: if/else of every function in {_f} flipped (if c: A else: B -> if not c: B else: A)", (_f, "@flipif_all", "")))
